@@ -24,7 +24,7 @@ def classify(prop, v, **ctx):
     v.setdefault("finding", None)
     if v.get("finding"):
         return v["finding"]
-    generic = (history_dependent_rounding_fold, inconsistent_assumptions_after_history, imaginary_unit_in_generated_code, divisor_folded_to_zero, python_float_division_by_zero, inverse_trig_of_constant_generic, trig_of_inverse_trig_overflow, saturated_sigmoid_linearisation, float64_overflow_counterfactual)
+    generic = (history_dependent_rounding_fold, inconsistent_assumptions_after_history, negated_literal_zero, imaginary_unit_in_generated_code, divisor_folded_to_zero, python_float_division_by_zero, inverse_trig_of_constant_generic, trig_of_inverse_trig_overflow, saturated_sigmoid_linearisation, float64_overflow_counterfactual)
     for fn in MATCHERS.get(prop, []) + list(generic):
         try:
             fid = fn(v, prop=prop, **ctx) if fn in generic else fn(v, **ctx)
@@ -58,6 +58,40 @@ def imaginary_unit_in_generated_code(v, prop="", text="", ref=None, **kw):
     hit = "name 'I' is not defined" in msg or re.search(r"[‘'`]I[’'`] undeclared|undeclared identifier 'I'", msg)
     if hit and not (ref is not None and ("I" in ref.assigns or "I" in ref.states or "I" in ref.params)):
         return f"{prop}-imaginary-unit-from-a-constant-subexpression"
+    return None
+
+
+def negated_literal_zero(v, prop="", text="", ref=None, **kw):
+    """`x - (0)` / `-0` is kept as the unevaluated product (-1)*0, an "integer" that sympy's assumption system holds to be
+    negative and zero at once: Mod(x - (0), 2) is folded to 0 (the sum is taken for an even integer), other operations raise
+    InconsistentAssumptions.  Predicate: the closure of the violating quantity subtracts / negates a constant sub-expression
+    whose value is exactly 0."""
+    import ast
+
+    if prop not in ("C01", "C02", "C03") or ref is None or v.get("kind") not in ("value", "raises", "rhs_raises", "codegen_raises"):
+        return None
+    d = v.get("detail", {})
+    name = (d.get("root_cause") or {}).get("name") or d.get("name")
+    if name in ref.derivs:
+        name = ref.derivs[name]
+    names = closure_names(ref, name) if name in ref.assigns else set(ref.assigns)
+    ev = ref.evaluator(ref.default_point())
+
+    def const_zero(node, src):
+        fn_ids = {id(c.func) for c in ast.walk(node) if isinstance(c, ast.Call)}
+        if any(isinstance(q, ast.Name) and id(q) not in fn_ids and q.id != "pi" for q in ast.walk(node)):
+            return False
+        try:
+            return ev.expr(node, src).v == 0
+        except Exception:
+            return False
+
+    for n in names:
+        for k in ast.walk(ref._parsed[n]):
+            if isinstance(k, ast.BinOp) and isinstance(k.op, ast.Sub) and const_zero(k.right, ref._src[n]):
+                return f"{prop}-negated-literal-zero-confuses-sympy-assumptions"
+            if isinstance(k, ast.UnaryOp) and isinstance(k.op, ast.USub) and const_zero(k.operand, ref._src[n]):
+                return f"{prop}-negated-literal-zero-confuses-sympy-assumptions"
     return None
 
 
